@@ -40,11 +40,11 @@ def setup(ctx):
         "the peer's count of decrypted application bytes is taken after draining to EOF once the client call returned",
         "writes are observed at asyncio.sslproto._SSLProtocolTransport.write (the transport the client protocol runs on)",
     ]
-    ctx.require("monitor", "calls", 50)
-    ctx.require("monitor", "failed_verifications", 25)
-    ctx.require("monitor", "verify_returns_seen", 40)
+    ctx.require("monitor", "calls", 31)
+    ctx.require("monitor", "failed_verifications", 19)
+    ctx.require("monitor", "verify_returns_seen", 29)
     ctx.require("monitor", "writes_seen", 20)
-    ctx.require("monitor", "control_peer_saw_request", 15)
+    ctx.require("monitor", "control_peer_saw_request", 12)
 
 
 class OrderMonitor:
